@@ -1,15 +1,27 @@
 #!/bin/sh
 # usage: tools/try_mutant.sh <seeded-dir> <Cxx> [more check ids]
-# applies seeded/<dir>/patch.diff to /repo, runs demo.py (must fail) and the checks (should report VIOLATION), reverts, re-runs demo (must pass).
+# Applies seeded/<dir>/patch.diff to a scratch copy of /repo (so concurrent work on /repo is not disturbed), runs demo.py
+# (must fail) and the checks with CUQI_REPO pointing at the copy (should report VIOLATION), then runs the demo on /repo (must pass).
+# Evidence files are saved and restored (evidence must come from runs against /repo itself).
+# With TRY_IN_PLACE=1 the patch is applied to /repo itself and reverted afterwards (the procedure of the brief).
 S=$1; shift
-cd /repo || exit 2
-[ -z "$(git status --porcelain)" ] || { echo "/repo not clean"; exit 2; }
-git apply --check "$S/patch.diff" || { echo "PATCH DOES NOT APPLY"; exit 2; }
+if [ "$TRY_IN_PLACE" = "1" ]; then
+  R=/repo
+  cd /repo || exit 2
+  [ -z "$(git status --porcelain)" ] || { echo "/repo not clean"; exit 2; }
+else
+  R=/tmp/mutrepo.$$
+  rm -rf $R; mkdir -p $R; rsync -a --exclude .git /repo/ $R/
+  cd $R && git init -q . >/dev/null 2>&1
+fi
+cd $R
+git apply --check "$S/patch.diff" 2>/dev/null || { echo "PATCH DOES NOT APPLY"; [ "$R" != /repo ] && rm -rf $R; exit 2; }
 git apply "$S/patch.diff"
-(cd /repo && OMP_NUM_THREADS=1 /venv/bin/python "$S/demo.py" >/tmp/demo.out 2>&1; echo "demo exit with patch (want !=0): $?"; grep -m1 "cuqi from" /tmp/demo.out)
+mkdir -p /tmp/ev_save.$$; cp /verif/evidence/*.json /tmp/ev_save.$$/ 2>/dev/null
+(cd $R && PYTHONPATH=$R OMP_NUM_THREADS=1 /venv/bin/python "$S/demo.py" >/tmp/demo.out 2>&1; echo "demo exit with patch (want !=0): $?"; grep -m1 "cuqi from" /tmp/demo.out)
 for c in "$@"; do
-  (cd /verif && ./check $c > /tmp/mut_$c.out 2>&1; echo "check $c exit (want 1): $?"; grep -E "^VIOLATION|^\\[C" /tmp/mut_$c.out | cut -c1-200 | head -6)
+  (cd /verif && CUQI_REPO=$R ./check $c > /tmp/mut_$c.out 2>&1; echo "check $c exit (want 1): $?"; grep -E "^VIOLATION|^\[C" /tmp/mut_$c.out | cut -c1-200 | head -6)
 done
-git -C /repo checkout -- .
+cp /tmp/ev_save.$$/*.json /verif/evidence/ 2>/dev/null; rm -rf /tmp/ev_save.$$
+if [ "$R" = /repo ]; then git -C /repo checkout -- .; else rm -rf $R; fi
 (cd /repo && OMP_NUM_THREADS=1 /venv/bin/python "$S/demo.py" >/tmp/demo0.out 2>&1; echo "demo exit without patch (want 0): $?")
-git -C /repo status --short | head -3
